@@ -339,6 +339,12 @@ class World20:
             if eager:
                 return getattr(a, op)(b)
             return lambda: getattr(a, op)(b)
+        if t == 'depx':
+            # a dependent callable that fails for some positions of its point (inverse of a null element, ...)
+            a, op = self.mvs[n['a']], n['op']
+            if eager:
+                return getattr(a, op)()
+            return lambda: getattr(a, op)()
         raise ValueError(t)
 
     def on_kernel_publish(self, c, msg_type, data, buffers):
@@ -414,12 +420,28 @@ class World20:
                 self._exp(x, out)
         elif t == 'call':
             self._exp(n['of'], out)
+        elif t == 'depx':
+            a = self.model_mv(n['a'])
+            r = getattr(a, n['op'])()
+            out.append(('mv', self.coeff_vectors(dict(zip(r.keys(), r.values())))[0]))
         elif t == 'dep':
-            from kingdon import MultiVector
-            a = MultiVector.fromkeysvalues(self.alg, tuple(self.model[n['a']]), list(self.model[n['a']].values()))
-            b = MultiVector.fromkeysvalues(self.alg, tuple(self.model[n['b']]), list(self.model[n['b']].values()))
+            a = self.model_mv(n['a'])
+            b = self.model_mv(n['b'])
             r = getattr(a, n['op'])(b)
             out.append(('mv', self.coeff_vectors(dict(zip(r.keys(), r.values())))[0]))
+
+    def model_mv(self, i):
+        """A multivector with the reference model's coefficients and the same kind of container as the original
+        (numpy arithmetic and Python arithmetic fail differently, e.g. on division by zero)."""
+        from kingdon import MultiVector
+        m = self.cfg['mvs'][i]
+        keys = tuple(self.model[i])
+        vals = list(self.model[i].values())
+        if m.get('cont') == 'nd':
+            vals = np.array(vals, dtype=m.get('dtype', 'float64'))
+        elif m.get('npscalars'):
+            vals = [np.float64(v) if isinstance(v, float) else np.int64(v) if isinstance(v, int) else v for v in vals]
+        return MultiVector.fromkeysvalues(self.alg, keys, vals)
 
     def flatten_decoded(self, x, out, fe):
         if isinstance(x, Element):
@@ -448,10 +470,22 @@ class World20:
 
     def check_kernel(self, where):
         self.stats['checks'] += 1
+        # the scene as it should be rendered now; a user callable may fail for the current positions
+        try:
+            exp_now = self.expected_scene()
+            scene_error = None
+        except Exception as e:
+            exp_now, scene_error = None, type(e).__name__
         if self.catcher.records:
-            self.violate('W3-handler-exception', where=where, got=self.catcher.records[0][:400],
-                         expected='the kernel handles every well-formed front-end message')
-            return
+            if scene_error is not None and scene_error in self.catcher.records[0]:
+                # the user's callable raised while the scene was re-evaluated: ipywidgets logs it, the coefficients
+                # have been written already and `subjects` keeps its previous value
+                self.stats['scene_errors'] = self.stats.get('scene_errors', 0) + 1
+                del self.catcher.records[:]
+            else:
+                self.violate('W3-handler-exception', where=where, got=self.catcher.records[0][:400],
+                             expected='the kernel handles every well-formed front-end message')
+                return
         # W3: original objects, original containers, exactly the model's coefficients
         for i, mv in enumerate(self.mvs):
             if mv.values() is not self.containers[i]:
@@ -478,7 +512,12 @@ class World20:
         except Exception as e:
             self.violate('W1-undecodable', where=where, got=f'{type(e).__name__}: {e}', expected='decodable payload')
             return
-        exp = self.expected_scene()
+        if exp_now is not None:
+            exp = self.last_good_expected = exp_now
+        else:
+            exp = self.last_good_expected          # the re-evaluation failed: the previous payload stands
+        if exp is None:
+            return                                 # the scene cannot be evaluated at all yet
         if len(dec) != len(exp) or not all(self.same_leaf(a, b) for a, b in zip(dec, exp)):
             bad = next((i for i, (a, b) in enumerate(zip(dec, exp)) if not self.same_leaf(a, b)), min(len(dec), len(exp)))
             self.violate('W1-subjects', where=where, leaf=bad,
@@ -551,14 +590,23 @@ class World20:
 
     # ---- main loop ---------------------------------------------------------------------------------------
     def run(self):
+        self.last_good_expected = None
         try:
             self.build()
         except Exception as e:
             import traceback
             tb = traceback.extract_tb(e.__traceback__)
             where = next((f'{fr.filename}:{fr.lineno} in {fr.name}' for fr in reversed(tb) if '/kingdon/' in fr.filename), '?')
-            self.violate('W1-payload-exception', expected='Algebra.graph builds the widget and its payload',
-                         got=f'{type(e).__name__}: {e} at {where}')
+            try:
+                self.expected_scene()
+                user_error = False
+            except Exception as e2:
+                user_error = type(e2).__name__ == type(e).__name__
+            if user_error:
+                self.stats['vacuous'] = 1    # a scene callable fails for the initial positions
+            else:
+                self.violate('W1-payload-exception', expected='Algebra.graph builds the widget and its payload',
+                             got=f'{type(e).__name__}: {e} at {where}')
             self.fe = FrontEnd(self)
             return self
         # which world multivector is behind each draggable slot (top-level position -> mv id)
@@ -570,7 +618,7 @@ class World20:
             n = top[j] if 0 <= j < len(top) else None
             ok = bool(n) and n['t'] == 'mv' and not self.cfg['mvs'][n['id']].get('shape')
             self.draggable_targets.append(n['id'] if ok else None)
-            if bool(n) and n['t'] == 'dep':
+            if bool(n) and n['t'] in ('dep', 'depx'):
                 continue        # a computed multivector at the top level: draggable, but not an original object
             if not ok:
                 self.violate('W2-draggable-index', expected='every draggable index is the position, in the decoded '
@@ -578,6 +626,10 @@ class World20:
                              got=f'index {j} -> {n}')
         self.check_tables()
         self.check_kernel('after creation')
+        if self.last_good_expected is None and not self.violations:
+            self.stats['vacuous'] = 1        # the scene raised at creation on both sides: nothing to simulate
+            self.fe = FrontEnd(self)
+            return self
         self.fe = FrontEnd(self)
         for d in self.cfg.get('drags', []):
             self.schedule(d['t'], 'drag', d)
@@ -669,7 +721,7 @@ def _json_default(o):
 
 def effective_top(scene):
     """kingdon treats a single callable subject as 'a function returning the subjects'."""
-    if len(scene) == 1 and scene[0]['t'] in ('call', 'dep'):
+    if len(scene) == 1 and scene[0]['t'] in ('call', 'dep', 'depx'):
         n = scene[0]
         while n['t'] == 'call':
             n = n['of']
@@ -717,7 +769,8 @@ def _num_eq(a, b):
     try:
         if isinstance(a, np.ndarray) or isinstance(b, np.ndarray):
             return bool(np.array_equal(np.asarray(a, dtype='float64'), np.asarray(b, dtype='float64')))
-        return float(a) == float(b)
+        fa, fb = float(a), float(b)
+        return fa == fb or (fa != fa and fb != fb)
     except Exception:
         return a == b
 
